@@ -375,7 +375,7 @@ def ob_graph2_accept_on_hitl_subclass(pair: int, a0: int, a1: int, r00: bool, r0
     return _agree(steps, _mk_skips(w0, w1, w2, [0, 0]), w0, False)
 
 
-@obligation(quick=200, thorough=600, partitions_quick=["pair == 0", "pair == 1"],
+@obligation(quick=200, thorough=600, partitions_quick=["pair == 0", "pair == 1", "pair >= 2"],
             partitions_thorough=[f"pair == {p}" for p in range(len(PAIRS))],
             what="per-step skip_graph_checks (reachability / dead_end) and their interplay with the workflow-level "
                  "skips: accept/reject agrees with the reference (s0 accepts StartEvent)",
